@@ -7,6 +7,7 @@ package electreIII
 
 // This listener's definitions of the abstract predicates of model.BiasListener
 //@ pred elValid(l model.BiasListener, p model.MethodParameters) = typeis(p, electreIIIParams) && p.(electreIIIParams).Criteria != nil
+//@   && p.(electreIIIParams).DistillationFun != nil && nonnegOnUnit(*p.(electreIIIParams).DistillationFun)
 //@ pred elCovers(l model.BiasListener, p model.MethodParameters, id string) = typeis(p, electreIIIParams) && p.(electreIIIParams).Criteria != nil && id in *p.(electreIIIParams).Criteria
 //@ pred elAcceptsAny(l model.BiasListener, x model.MethodParameters) = typeis(x, electreIIIParams) && x.(electreIIIParams).Criteria != nil
 //@ pred elAccepts(l model.BiasListener, x model.MethodParameters, id string) = typeis(x, electreIIIParams) && x.(electreIIIParams).Criteria != nil && id in *x.(electreIIIParams).Criteria
@@ -130,7 +131,6 @@ package electreIII
 
 //@ func EvaluateRanking
 //@   property C01 C05 C06
-//@   requires [same_length] len(*descending) >= len(*ascending) && len(*alternatives) >= len(*ascending)
 //@   ensures [one_entry_each] result != nil && fresh(result) && len(*result) == len(*ascending)
 //@   ensures [entries] forall a int :: 0 <= a && a < len(*ascending) ==> (*result)[a].Alternative == (*alternatives)[a] && electreEval((*result)[a].AlternativeResult, (*ascending)[a], (*descending)[a])
 //@   ensures [links_complete] forall a int, b int :: 0 <= a && a < len(*ascending) && 0 <= b && b < len(*ascending) && a != b
@@ -160,3 +160,59 @@ package electreIII
 //@             exists m int :: 0 <= m && m < len(betterOrSameAs) && betterOrSameAs[m] == (*alternatives)[b].Id
 //@   loop 2 invariant [current_sound] forall m int :: 0 <= m && m < len(betterOrSameAs) ==>
 //@             exists b int :: 0 <= b && b < iter && ia != b && betterOrSameAs[m] == (*alternatives)[b].Id && (*ascending)[ia] <= (*ascending)[b] && (*descending)[ia] <= (*descending)[b]
+
+// ---- parameter validation (C05, C20)
+
+//@ func requireBValueAtLeast
+//@   property C05 C20
+//@   panics_iff [constant_threshold_not_increasing] f.A == 0.0 && f.B != 0.0 && f.B <= current
+//@   ensures [running_bound] result == (f.B > 0.0 ? f.B : current)
+
+//@ func validateParameters
+//@   property C05 C20
+//@   panics_iff [k_not_positive_or_thresholds_not_increasing] crit.K <= 0.0
+//@             || (crit.Q.A == 0.0 && crit.Q.B != 0.0 && crit.Q.B <= 0.0)
+//@             || (crit.P.A == 0.0 && crit.P.B != 0.0 && crit.P.B <= (crit.Q.B > 0.0 ? crit.Q.B : 0.0))
+//@             || (crit.V.A == 0.0 && crit.V.B != 0.0 && crit.V.B <= (crit.P.B > 0.0 ? crit.P.B : (crit.Q.B > 0.0 ? crit.Q.B : 0.0)))
+
+// ---- the distillation function must be non-negative on [0,1]: otherwise the cut level of the distillation does not decrease
+// and distillate does not terminate (the termination argument itself is not mechanised; this is its precondition)
+//@ pred nonnegOnUnit(f utils.LinearFunctionParameters) = f.B >= 0.0 && f.A + f.B >= 0.0
+
+//@ lemma [C20 C05] nonneg_on_unit_interval: forall f utils.LinearFunctionParameters, x real
+//@   requires nonnegOnUnit(f) && 0.0 <= x && x <= 1.0
+//@   ensures  f.A * x + f.B >= 0.0
+
+//@ func getDistillationFunc
+//@   property C20 C05
+//@   ensures [nonneg_distillation] result != nil && nonnegOnUnit(*result)
+
+// rank / distillate are not under contract (recursion through closures); their callers must hand them a distillation function
+// that is non-negative on [0,1] - the precondition of the termination argument
+//@ func RankAscending
+//@   trusted
+//@   requires [nonneg_distillation] distillationFun != nil && nonnegOnUnit(*distillationFun)
+//@ func RankDescending
+//@   trusted
+//@   requires [nonneg_distillation] distillationFun != nil && nonnegOnUnit(*distillationFun)
+
+//@ func ElectreIII
+//@   property C20 C05 C01
+//@   requires [nonneg_distillation] distillationFun != nil && nonnegOnUnit(*distillationFun)
+//@   ensures [ranking] result != nil
+
+//@ func (*ElectreIIIPreferenceFunc).Evaluate
+//@   property C20 C05
+//@   requires [valid_parameters] typeis(dmp.MethodParameters, electreIIIParams) && dmp.MethodParameters.(electreIIIParams).DistillationFun != nil
+//@             && nonnegOnUnit(*dmp.MethodParameters.(electreIIIParams).DistillationFun)
+//@   ensures [ranking] result != nil
+
+//@ func (*ElectreIIIPreferenceFunc).ParseParams
+//@   property C20 C05 C07
+//@   ensures [valid_parameters] typeis(result, electreIIIParams) && result.(electreIIIParams).Criteria != nil
+//@             && result.(electreIIIParams).DistillationFun != nil && nonnegOnUnit(*result.(electreIIIParams).DistillationFun)
+
+//@ func extractElectreIIICriteria
+//@   property C20 C05 C07
+//@   ensures [validated] result != nil && fresh(result) && forall k int :: 0 <= k && k < len(dm.Criteria) ==> dm.Criteria[k].Id in *result && (*result)[dm.Criteria[k].Id].K > 0.0
+//@   loop 1 invariant [validated] forall k int :: 0 <= k && k < iter ==> dm.Criteria[k].Id in electreCriteria && electreCriteria[dm.Criteria[k].Id].K > 0.0
